@@ -116,7 +116,7 @@ def _build_native():
     os.makedirs(bdir)
     inc = ["-I" + os.path.join(REPO, "include"), "-I" + os.path.join(REPO, "applications/include")]
     jobs = []
-    for k in range(6):
+    for k in range(7):
         jobs.append(("part%d" % k, ["g++"] + CXXFLAGS + inc + ["-DHARNESS_PART=%d" % k, "-c", hsrc,
                                                               "-o", os.path.join(bdir, "part%d.o" % k)]))
     jobs.append(("app_utils", ["g++"] + CXXFLAGS + inc + ["-c", os.path.join(REPO, "applications/src/app_utils.cpp"),
@@ -133,7 +133,7 @@ def _build_native():
     if errs:
         raise BuildError("native build failed: " + ",".join(n for n, _ in errs), "\n".join(o[-4000:] for _, o in errs))
     libs = ["-lboost_filesystem", "-lboost_system"]
-    r = run(["g++", "-fsanitize=address,undefined"] + [os.path.join(bdir, "part%d.o" % k) for k in range(6)] +
+    r = run(["g++", "-fsanitize=address,undefined"] + [os.path.join(bdir, "part%d.o" % k) for k in range(7)] +
             [os.path.join(bdir, "app_utils.o")] + libs + ["-o", os.path.join(bdir, "harness")])
     if r.returncode != 0:
         raise BuildError("harness link failed", r.stdout[-4000:])
@@ -141,7 +141,7 @@ def _build_native():
             libs + ["-o", os.path.join(bdir, "Multitensor")])
     if r.returncode != 0:
         raise BuildError("CLI link failed", r.stdout[-4000:])
-    for k in range(6):
+    for k in range(7):
         os.remove(os.path.join(bdir, "part%d.o" % k))
     os.remove(os.path.join(bdir, "cli.o"))
     os.remove(os.path.join(bdir, "app_utils.o"))
